@@ -271,6 +271,35 @@ def main():
             want = {1: "one", 2: "two", 3: "three", 4: "four", 5: "five"}.get(v, "int")
             if not (isinstance(r, tuple) and r[0] == want and r[1] is inst):
                 fail("literal_overloads_of_a_method_pass_self_on_every_path", cls=cls.__name__, value=v, got=repr(r)[:80], want=want)
+    # an Ovld object stored as a class attribute (no metaclass): bound like a function, also on FALSY instances
+    from ovld import Ovld
+
+    desc = Ovld(name="describe")
+
+    def d_int(self, x: int):
+        return ("int", self)
+
+    def d_obj(self, x: object):
+        return ("obj", self)
+
+    desc.register(d_int)
+    desc.register(d_obj)
+
+    class Stack:
+        describe = desc
+
+        def __init__(self, items=()):
+            self.items = list(items)
+
+        def __len__(self):
+            return len(self.items)
+
+    for inst in (Stack([1]), Stack()):
+        for v in (7, "s"):
+            n += 1
+            r = out(lambda: inst.describe(v))
+            if not (isinstance(r, tuple) and r[1] is inst and r[0] == ("int" if isinstance(v, int) else "obj")):
+                fail("ovld_attribute_binds_falsy_instances_too", empty=len(inst) == 0, value=v, got=repr(r)[:80])
     print(json.dumps(dict(evaluations=n, failing=list(failing.values()))))
     return 1 if failing else 0
 
